@@ -297,17 +297,17 @@ pub fn run(tier: Tier) -> i32 {
         st = st.merge(sd);
     }
     // (e) medium-size documents (containers of about 16, 32, 64 ... elements / members): every sentence up to
-    // 4 (5) tokens, every E1 expression and every postfix chain of length <= 2 (3)
+    // 4 tokens, every E1 expression and every postfix chain of length <= 2 (the thorough tier extends the sizes)
     {
         let sizes: Vec<usize> = tier.pick(vec![16, 17, 33], vec![15, 16, 17, 31, 32, 33, 63, 64, 65, 129, 257]);
         let mdocs = crate::enumr::medium_docs(&sizes);
-        let ml = tier.pick(4, 5);
+        let ml = 4;
         let mut exprs: Vec<String> = Vec::new();
         for t in 0..alpha.len() {
             sentences(&G, &alpha, &[t as u8], ml, &mut |seq| exprs.push(alpha.render(seq)));
         }
         exprs.extend(e1v.iter().cloned());
-        exprs.extend(chains(tier.pick(2, 3)));
+        exprs.extend(chains(2));
         exprs.extend(["[?a]", "[?a == `1`].b", "[?@]", "[?!@]", "*.a", "a[?a > `0`].b[]", "[].b[]", "[*].b[1]", "a[::2]", "a[1::3].a", "b.*", "b.* | [0]", "[*][0]", "[][]", "[*].a | [-1]", "a[-1]", "*[0]", "[?b[0] > `10`].a"].iter().map(|s| s.to_string()));
         exprs.sort();
         exprs.dedup();
@@ -343,7 +343,7 @@ pub fn run(tier: Tier) -> i32 {
     rep.guard("some expressions yield non-null results", st.nontrivial > 100);
     rep.guard("more than 1000 expressions explored", st.states > 1000);
     rep.rule = "(a) every sentence of the grammar over the core token alphabet up to the length bound (DFS over viable prefixes) and (b) every composed expression E1 = production(E0,E0), E2 = production(E1, E0|E1); each expression is searched on every document of the pool by the implementation and by the reference interpreter R-eval(R-parse(e), d). states = expressions, transitions = (expression, document) pairs; non-trivial = the expression has a non-null result on at least one document (d) 20 leaves with delimiter characters and escapes inside raw strings, literals and quoted identifiers x 13 contexts. (f) every comparison of two of 8 leaves under 12 predicate wrappers in 11 contexts. (e) short sentences, E1 and short chains on documents with containers of medium size (6 shapes per size).".into();
-    rep.bounds = json!({"medium_document_sizes": tier.pick(vec![16, 17, 33], vec![15, 16, 17, 31, 32, 33, 63, 64, 65, 129, 257]), "medium_document_expressions": "sentences <= 4 (5) tokens + E1 + postfix chains <= 2 (3)", "sentence_len": l, "alphabet": alpha.texts, "documents": if full { pool_full().len() } else { pool_quick().len() }, "postfix_chain_len": clen, "postfix": POSTFIX, "bases": BASES, "E0": e0v, "unary": UNARY, "binary": BINARY, "E2": if full {"E1 x E0 and E0 x E1 for all binary productions on the full pool; E1 x E1 for | [?] [,] && on the core pool"} else {"E1 x E0 and E0 x E1 for binary productions"}, "thorough_pools": "sentences of the longest length and the longest postfix chains use the core pool, everything shorter the full pool"});
+    rep.bounds = json!({"medium_document_sizes": tier.pick(vec![16, 17, 33], vec![15, 16, 17, 31, 32, 33, 63, 64, 65, 129, 257]), "medium_document_expressions": "sentences <= 4 tokens + E1 + postfix chains <= 2", "sentence_len": l, "alphabet": alpha.texts, "documents": if full { pool_full().len() } else { pool_quick().len() }, "postfix_chain_len": clen, "postfix": POSTFIX, "bases": BASES, "E0": e0v, "unary": UNARY, "binary": BINARY, "E2": if full {"E1 x E0 and E0 x E1 for all binary productions on the full pool; E1 x E1 for | [?] [,] && on the core pool"} else {"E1 x E0 and E0 x E1 for binary productions"}, "thorough_pools": "sentences of the longest length and the longest postfix chains use the core pool, everything shorter the full pool"});
     rep.assumptions = vec![
         "reference semantics = DESIGN Appendix A, bound to the compliance fixtures at check start".into(),
         "a step-0 slice applied to a non-array may be an error or null".into(),
